@@ -5,6 +5,7 @@
 package keepclient
 
 import (
+	"fmt"
 	"io"
 	"sort"
 	"strconv"
@@ -89,6 +90,11 @@ func (c *BlockCache) Get(kc *KeepClient, locator string) ([]byte, error) {
 		go func() {
 			rdr, size, _, err := kc.Get(locator)
 			var data []byte
+			if err == nil && size > int64(bufsize) {
+				// (make() below would panic)
+				rdr.Close()
+				err = fmt.Errorf("error reading %q: response size %d exceeds maximum block size %d", locator, size, bufsize)
+			}
 			if err == nil {
 				data = make([]byte, size, bufsize)
 				_, err = io.ReadFull(rdr, data)
